@@ -65,7 +65,7 @@ class Runner:
             out = c08.run_impl(case, self.Event, self.routes[route], self.labels, objs=objs)
         except Exception as ex:  # noqa: BLE001    the model never raises
             return case, None, f"raises: heartbeat_{kind} raised {type(ex).__name__}: {str(ex)[:100]}"
-        bad = c08.oracle(case, out, self.Event, self.hb, self.labels)
+        bad = c08.oracle(case, out, self.Event, self.hb, self.labels, **({"mk_event": self.mk_event} if getattr(self, "mk_event", None) else {}))
         if not bad and out:
             res = self.routes[route].last
             res = [res] if kind == "merge" else res
@@ -213,6 +213,13 @@ def run(ck, c08, Event, hb, labels, have_driver, cases):
                 return bad, d
             return b2, {"call": "reduce", "route": route, "pulsetime_s": p, "events(ts_us,dur_us,data,id)": small, "impl_output": out}
         R.call("big", "reduce", p, TX.build(Event, specs), route, shrink=shrink)
+    from . import c08_edge          # round 5: containers, data dict types, numeric extremes, faults
+    try:
+        c08_edge.run(R, cases)
+    except Exception as ex:  # noqa: BLE001    a tree on which the edge streams cannot even run: the tie is not established
+        import traceback
+        ck.disagreement("edge streams", f"harness/c08_edge.py could not complete against this tree: {type(ex).__name__}: {str(ex)[:200]}",
+                        {"traceback": traceback.format_exc()[-1500:]})
     R.compare_with_model()
     TX.prefer_session_failure(ck)
     ck.coverage["round3"] = {
